@@ -20,6 +20,52 @@ CLAIMED = {
     },
 }
 
+CLAIMED.update({
+    "C01": {
+        "text": "TLC checks on the layer model (spec/Chain.tla, MCChain.tla) that every admissible integer rounding of the exact optimum keeps "
+                "neighbours separated to within the stated 1 unit and in target order (so the slack is derived), and validates every "
+                "Force.compute() record from the real code (bounded lattice exhaustively strided, random, 150-label clusters, bounds, floats) "
+                "against the separation/order predicates, all pairs.",
+        "note": "Widths and positions enter TLC as integers (1/4 units on the lattice, 1/1000 with widths rounded down for floats). The literal "
+                "all-pairs reading has a known finding (F-01, nodeSpacing < 1); every other pair is still checked.",
+        "technique": "TLA+ layer model checked by TLC; trace validation of Force.compute() records against the spec's predicates",
+        "design_ref": "DESIGN.md section 8 (C01)",
+    },
+    "C02": {
+        "text": "The exact least-squares optimum of a layer is specified functionally (pool-adjacent-violators + wall clipping, Chain.tla); TLC proves on "
+                "the bounded chain lattice that it carries a KKT certificate and equals the fix-point of the operational solver model Vpsc.tla, and "
+                "then evaluates |position - optimum| <= 0.5 on every fitting layer of every lattice-valued layout observed from the real code, "
+                "re-certifying the optimum by KKT per record.",
+        "note": "Only lattice-valued inputs (multiples of 1/4) are compared with the optimum; ties of different width use the solver's chain order "
+                "from Force.getLayers().",
+        "technique": "TLA+ functional optimum + KKT certificate checked by TLC; refinement check against the solver model; trace validation",
+        "design_ref": "DESIGN.md section 8 (C02)",
+    },
+    "C03": {
+        "text": "TLC shows on the chain lattice that every rounding of the optimum stays within 0.5 of the walls when the layer fits, and evaluates "
+                "Inside / SpillKeepsSeparation on every layer of layouts observed from the real code with bounds synthesised around the exact "
+                "required width (exact fit, +-0.5, -1, -10).",
+        "note": "Same projection as C01.",
+        "technique": "TLA+ layer model checked by TLC; trace validation of Force.compute() records",
+        "design_ref": "DESIGN.md section 8 (C03)",
+    },
+    "C04": {
+        "text": "Structural predicates (conservation, contiguity, one stub per nearer layer, parent/child linkage, stub payload, reported layering, "
+                "single-layer rule, capacity) are evaluated by TLC on every Force.compute() record (objects walked through public attributes).",
+        "note": "The greedy choice of which label is punted is not constrained by the property and not compared (no operational distributor model yet).",
+        "technique": "trace validation of Force.compute() records against TLA+ structural predicates (TLC)",
+        "design_ref": "DESIGN.md section 8 (C04)",
+    },
+    "C06": {
+        "text": "TLC enumerates every call history (set-labels / set-options / compute / foreign-compute) of the engine model Engine.tla up to a bound; "
+                "each maximal history is replayed on one real Force and every compute is compared with a fresh engine on fresh labels for the "
+                "configuration the model predicts (accumulated options); seeded random longer histories are validated the same way.",
+        "note": "The model abstracts the layout function (specified in Chain/Vpsc) and tracks only cross-call state; stale aspects are modelled as flags.",
+        "technique": "TLA+ history model; TLC-generated histories replayed into the code; trace validation of recorded histories",
+        "design_ref": "DESIGN.md section 8 (C06)",
+    },
+})
+
 NOT_YET = "check not built yet in this round; planned with the TLA+ specification described in DESIGN.md section 8"
 
 
